@@ -25,9 +25,9 @@ func verifSrc(n int) []byte {
 }
 
 type verifOpts struct {
-	indent                                                      uint
+	indent                                                    uint
 	binNext, swCase, spRedir, keepPad, fnNext, minify, single bool
-	simplify                                                    bool
+	simplify                                                  bool
 }
 
 func verifPrinterOpts() verifOpts {
@@ -171,6 +171,13 @@ func verifC01Known(src []byte, f *File, o verifOpts) bool {
 		if r, ok := n.(*Redirect); ok && r.Hdoc != nil && len(r.Hdoc.Parts) > 0 {
 			if l, ok := r.Hdoc.Parts[len(r.Hdoc.Parts)-1].(*Lit); ok {
 				v := l.Value
+				// an escaped newline splits the body into adjacent literals;
+				// a last literal of tabs only is what precedes the delimiter
+				if np := len(r.Hdoc.Parts); np >= 2 {
+					if _, ok := r.Hdoc.Parts[np-2].(*Lit); ok && verifOnlyTabs(v) {
+						hdocCont = true
+					}
+				}
 				if k := len(v); k >= 2 && v[k-1] == '\n' && v[k-2] == '\\' {
 					hdocCont = true
 				}
@@ -280,4 +287,13 @@ func verifRoundTrip(src []byte, lang LangVariant, mode int) {
 		verifAssert(verifTreeEq(f, f2, 1|2|4), "re-parsed tree differs from the original tree")
 	}
 	verifReach("end")
+}
+
+func verifOnlyTabs(s string) bool {
+	for i := 0; i < len(s); i++ {
+		if s[i] != '\t' {
+			return false
+		}
+	}
+	return true
 }
